@@ -144,6 +144,10 @@ def TEMPLATES():
         ('op:scalar*SE3', 's*X', [G, A], lambda a: a[0] * sm.SE3.Rx(a[1])), ('op:SE3*scalar', 'X*s', [G, A], lambda a: sm.SE3.Rx(a[1]) * a[0]),
         ('op:scalar*SO3', 's*X', [G, A], lambda a: a[0] * sm.SO3.Ry(a[1])), ('op:scalar+SE3', 's+X', [G, A], lambda a: a[0] + sm.SE3.Rz(a[1])),
         ('op:SE3-scalar', 'X-s', [G, A], lambda a: sm.SE3.Rz(a[1]) - a[0]), ('op:SE3/scalar', 'X/s', [G, A], lambda a: sm.SE3.Rz(a[1]) / a[0]),
+        # operands that are nearly, not exactly, equal (1e-9 apart): the quotient is a motion of 1e-9, not the identity
+        ('op:SE3/SE3', 'nearly equal operands', [A], lambda a: (sm.SE3.Rx(a[0], t=[1, 2, 3]) / sm.SE3.Rx(a[0] + 1e-9, t=[1, 2, 3 + 2e-9])).A),
+        ('op:SO3/SO3', 'nearly equal operands', [A], lambda a: (sm.SO3.Rz(a[0]) / sm.SO3.Rz(a[0] + 1e-9)).A),
+        ('op:SE2/SE2', 'nearly equal operands', [A], lambda a: (sm.SE2(1, 2, a[0]) / sm.SE2(1 + 1e-9, 2, a[0] - 1e-9)).A),
         # == / != value by value on objects holding several values, some symbolic, some numeric (equal only to rounding)
         ('op:==', 'mixed sequence', [A], lambda a: [bool(v_) for v_ in (sm.SE3([sm.SE3.Rx(a[0]), sm.SE3.Rz(0.1) * sm.SE3.Rz(0.2), sm.SE3.Ry(a[0])]) == sm.SE3([sm.SE3.Rx(a[0]), sm.SE3.Rz(0.3), sm.SE3.Rx(a[0] + 1)]))]),
         ('op:!=', 'mixed sequence', [A], lambda a: [bool(v_) for v_ in (sm.SO3([sm.SO3.Rx(a[0]), sm.SO3.Rz(0.1) * sm.SO3.Rz(0.2)]) != sm.SO3([sm.SO3.Rx(a[0]), sm.SO3.Rz(0.3)]))]),
@@ -366,6 +370,8 @@ def run(ctx):
     i = 0
     for ti, (tname, form, kinds, fn) in enumerate(T):
         consts = structural_constants(np.random.default_rng(ti), fn, kinds)
+        if 'nearly equal' in form:
+            consts = None         # (cos(1e-9) rounds to 1.0 for every sample: not a structural constant)
         n = len(kinds)
         masks = list(itertools.product([True, False], repeat=n)) if n <= 4 else \
             [tuple([True] * n)] + [tuple(bool(x) for x in rng.integers(0, 2, n)) for _ in range(6)]
